@@ -366,6 +366,39 @@ example :
     (hrun ⟨true, true, some⟩ ⟨false, true, some⟩ hinit [.reqData [0, 0], .reqEnd, .respData [0, 0, 0, 0, 0], .respEnd]).2 =
       [.q (Ev.data none 2), .qEnd, .p (Ev.data (some ⟨0, 0⟩) 0), .pEnd] := by decide
 
+/-! ### body ends of a stream traced at the connection level; finding F33 -/
+
+/-
+Full statement (C14: "a single body-end event"): for EVERY sequence of events of a stream's life the
+trace has at most one request body end.  It does NOT hold for the code as it is (F33, below): the
+model, like the code, adds one `RequestBodyEnd` per request-ending operation (`hrun_qEnds`).  Proved:
+the statement under the hypothesis that the request side is ended at most once — i.e. there is no
+client reset / loss of the connection on the client side AFTER the request's END_STREAM.
+-/
+theorem h2_one_request_body_end_partial (cq cp : Cfg) (ops : List HOp)
+    (h : (ops.filter isReqEndOp).length ≤ 1) : qEnds (hrun cq cp hinit ops).2 ≤ 1 := by
+  rw [hrun_qEnds]; exact h
+
+/-- … and exactly one as soon as the request side ends once -/
+theorem h2_request_body_ends (cq cp : Cfg) (ops : List HOp) :
+    qEnds (hrun cq cp hinit ops).2 = (ops.filter isReqEndOp).length :=
+  hrun_qEnds cq cp ops hinit
+
+example : ([HOp.reqData [0, 0], .reqEnd, .respData [0], .respEnd].filter isReqEndOp).length ≤ 1 := by decide
+
+/-- **F33 (known finding, not repaired).**  Client side: the request ends (END_STREAM), the response
+is under way, the connection is lost — `cancelAll` adds `RequestBodyEnd{err}` although the trace has
+one already (the code's own TODO).  The as-is model emits two request body ends on that script; the
+specification of the request direction (the bytes that arrived + one end) has one. -/
+theorem f33_witness :
+    let cq : Cfg := ⟨true, true, some⟩
+    let cp : Cfg := ⟨false, true, some⟩
+    let ops : List HOp := [.reqData [0, 0, 0, 0, 1, 7], .reqEnd, .respData [0, 0, 0, 0, 3, 120, 121, 122], .reqAbort]
+    (hrun cq cp hinit ops).2 =
+      [.q (Ev.data (some ⟨0, 1⟩) 1), .qEnd, .p (Ev.data (some ⟨0, 3⟩) 3), .qEnd] ∧
+    qEnds (hrun cq cp hinit ops).2 = 2 ∧
+    ((specTrace cq (reqBytes ops).flatten .nil).filter isBodyEnd).length = 1 := by decide
+
 /-! ### a caller that reuses one array for all its calls -/
 
 open ConfModel.CallerBuf in
